@@ -152,7 +152,7 @@ def lookup_obligations(db, depth):
         dict(id='M20.chain', desc='superclasses / superclasses_iter / has_superclass return the whole chain down to the root', bounds='chains of 1..%d classes (the real maximum is %d, decided by Z5.depth)' % (dmax, depth),
              cases=[dict(what='chain', depth=d) for d in range(1, dmax + 1)], budget=300),
         dict(id='M20.default', desc='find_default_property returns the nearest definition on the chain and None when nobody defines it', bounds='chains of 1..%d classes, the default defined at one or two levels (the real database inherits over up to %d levels)' % (min(dmax, 5), inherit),
-             cases=[dict(what='default', depth=d, at=at) for d in range(1, min(dmax, 5) + 1) for at in ([()] + [(j,) for j in range(d)] + [(j, k) for j in range(d) for k in range(j + 1, d)])], budget=300),
+             cases=[dict(what='default', depth=d, at=at, filler=fl) for fl in (False, True) for d in range(1, min(dmax, 5) + 1) for at in ([()] + [(j,) for j in range(d)] + [(j, k) for j in range(d) for k in range(j + 1, d)])], budget=300),
         dict(id='M20.serialized', desc='find_property_descriptors resolves a serializes-as target to the descriptor of that name for every target kind the real database contains, through the canonical name and an alias, on the class and a subclass',
              bounds='target kinds in the database: %s' % {k: len(v) for k, v in shapes.items()}, cases=[dict(what='ser', shape=k) for k in sorted(shapes) if k != 'missing'], budget=300),
     ]
